@@ -64,11 +64,30 @@ def impl(case) -> str:
         def closed(self):
             events.append("z")
 
+        # re-entrant application: the hooks may write synchronously (a push producer resumed / paused in the hook)
+        depth = 0
+
+        def _hook(self, script):
+            if self.depth >= 6:
+                events.append("DEEP")
+                return
+            self.depth += 1
+            try:
+                for h in script:
+                    if h[0] == "w":
+                        self.write(bytes.fromhex(h[1]))
+                    else:
+                        self.writeExtended(h[1], bytes.fromhex(h[2]))
+            finally:
+                self.depth -= 1
+
         def stopWriting(self):
             events.append("-")
+            self._hook(case.get("stop_hook") or [])
 
         def startWriting(self):
             events.append("+")
+            self._hook(case.get("start_hook") or [])
 
     conn = connection.SSHConnection()
     conn.transport = Transport()
@@ -115,6 +134,16 @@ def impl(case) -> str:
 
 
 def oracle(case, obs):
+    f = _oracle(case, obs)
+    if f is not None and case.get("stop_hook") and "-" in obs:
+        # writes made from inside stopWriting(): known finding (the hook runs before write()/writeExtended() have
+        # accounted for the bytes they are about to send)
+        f.reason = "[stopWriting() hook writes] " + f.reason
+        f.tag = "reentrant-write-from-stopWriting"
+    return f
+
+
+def _oracle(case, obs):
     ops = case["ops"]
     head = obs.split(" |")[0]
     per = head.split(" ") if ops else []
@@ -214,7 +243,14 @@ def oracle(case, obs):
                     return Failure(case, where + "closed() called twice or before both directions closed",
                                    "closed-callback")
             elif c in "+-":
-                pass
+                # the hook writes synchronously: its data is handed to write()/writeExtended() at this very point
+                for h in (case.get("start_hook") if c == "+" else case.get("stop_hook")) or []:
+                    if closed:
+                        break
+                    if h[0] == "w":
+                        wr += bytes.fromhex(h[1])
+                    else:
+                        xwr += [(h[1], b) for b in bytes.fromhex(h[2])]
             else:
                 return Failure(case, where + "unknown event", "log")
         if kind in ("rd", "rx"):
@@ -280,6 +316,16 @@ def _history(rng, n, sizes, adj_sizes, weights):
     return ops
 
 
+def _hook_script(rng, sizes, base):
+    """what a hook writes synchronously; byte values 251..255 are not used by the histories themselves"""
+    out = []
+    for _ in range(rng.choice([1, 1, 2, 3])):
+        n = max(1, rng.choice(sizes))
+        d = bytes([base + (i % 2) for i in range(n)]).hex()
+        out.append(["w", d] if rng.random() < 0.6 else ["x", rng.choice([1, 2]), d])
+    return out
+
+
 def gen(rng, tier):
     cases = []
     quick = tier == "quick"
@@ -309,7 +355,10 @@ def gen(rng, tier):
                         ops.append(["rx", 1, b.take(a[1])])
                     else:
                         ops.append([a[0]])
-                cases.append({"rw": rw, "rmp": rmp, "lw": lw, "lmp": lmp, "ops": ops})
+                case = {"rw": rw, "rmp": rmp, "lw": lw, "lmp": lmp, "ops": ops}
+                if any(o[0] == "adj" for o in ops) and rng.random() < 0.4:
+                    case["start_hook"] = rng.choice([[["w", "fbfc"]], [["x", 1, "fb"]], [["w", "fb"], ["x", 2, "fcfb"], ["w", "fc"]]])
+                cases.append(case)
     # (b) random histories, limits from 1 byte up, several op mixes
     mixes = {
         "send": [5, 4, 1, 5, 1, 1, 0.5, 0.3],
@@ -330,7 +379,15 @@ def gen(rng, tier):
         ops = _history(rng, rng.randrange(2, 14 if quick else 30), sizes, adjs, mixes[mix])
         if rng.random() < 0.5:
             ops.append(["adj", BIG])       # drain: everything still buffered must come out, in order
-        cases.append({"rw": rw, "rmp": rmp, "lw": lw, "lmp": lmp, "ops": ops})
+        case = {"rw": rw, "rmp": rmp, "lw": lw, "lmp": lmp, "ops": ops}
+        r = rng.random()
+        if r < 0.35:
+            case["start_hook"] = _hook_script(rng, sizes, 251)
+        elif r < 0.45:
+            case["stop_hook"] = _hook_script(rng, sizes, 253)
+            if rng.random() < 0.5:
+                case["start_hook"] = _hook_script(rng, sizes, 251)
+        cases.append(case)
     # (c) wide windows (32-bit sizes must not be unary numbers anywhere)
     for _ in range(20 if quick else 400):
         ops = _history(rng, rng.randrange(2, 12), [0, 1, 5, 30], [0, 1, 2 ** 31, 2 ** 32 - 1], mixes["all"])
@@ -362,6 +419,14 @@ def corpus():
         # the application grants extra window beyond localWindowSize; the peer uses all of what was advertised
         {"rw": 0, "rmp": 1, "lw": 8, "lmp": 8, "ops": [["aadj", 8], ["rd", h("abc")], ["rd", h("defghijk")], ["rd", h("lmnop")]]},
         {"rw": 0, "rmp": 1, "lw": 4, "lmp": 9, "ops": [["aadj", 5], ["rd", h("abcdefghi")], ["aadj", 0], ["rx", 1, h("jklm")]]},
+        # re-entrant startWriting(): backlog "bcd" buffered, WINDOW_ADJUST wakes the producer which writes at once
+        {"rw": 1, "rmp": 4, "lw": 8, "lmp": 8, "start_hook": [["w", "fbfc"], ["x", 1, "fb"]],
+         "ops": [["w", h("abcd")], ["adj", 2], ["adj", 1], ["adj", 9]]},
+        {"rw": 0, "rmp": 2, "lw": 8, "lmp": 8, "start_hook": [["x", 1, "fbfc"], ["w", "fb"]],
+         "ops": [["x", 1, h("abc")], ["w", h("de")], ["adj", 1], ["adj", 3], ["lose"], ["adj", 9]]},
+        # known finding: writing from inside stopWriting()
+        {"rw": 4, "rmp": 10, "lw": 8, "lmp": 8, "stop_hook": [["x", 1, "fdfe"]], "ops": [["w", h("abcdefgh")], ["adj", 20]]},
+        {"rw": 4, "rmp": 10, "lw": 8, "lmp": 8, "stop_hook": [["w", "fdfe"]], "ops": [["x", 1, h("abcdefgh")], ["adj", 20]]},
         # 1-byte local window
         {"rw": 0, "rmp": 1, "lw": 1, "lmp": 1, "ops": [["rd", h("a")], ["rd", h("b")]]},
     ]
@@ -395,9 +460,11 @@ def _op(o):
 
 
 def to_coq(case):
-    if case["rmp"] < 1 or case["lw"] < 1 or case["lmp"] < 1:
-        return None
-    return (f"(true, ({case['rw']}%N, {case['rmp']}%N, {case['lw']}%N, {case['lmp']}%N), "
+    if case["rmp"] < 1 or case["lw"] < 1 or case["lmp"] < 1 or case.get("stop_hook"):
+        return None         # writes from inside stopWriting() are outside the modelled fragment (known finding)
+    hook = coq_list([f"HWrite {_hx(h[1])}" if h[0] == "w" else f"HWriteExt {h[1]}%N {_hx(h[2])}"
+                     for h in case.get("start_hook") or []], "hop")
+    return (f"(true, {hook}, ({case['rw']}%N, {case['rmp']}%N, {case['lw']}%N, {case['lmp']}%N), "
             f"{coq_list(map(_op, case['ops']), 'op')})")
 
 
@@ -412,6 +479,10 @@ def shrink(case):
             yield {**case, "ops": ops[:i] + [[o[0], o[1], o[2][:-2]]] + ops[i + 1:]}
         if o[0] in ("adj", "aadj") and o[1] > 1:
             yield {**case, "ops": ops[:i] + [[o[0], o[1] // 2]] + ops[i + 1:]}
+    for hk in ("start_hook", "stop_hook"):
+        if case.get(hk) and len(case[hk]) > 1:
+            for i in range(len(case[hk])):
+                yield {**case, hk: case[hk][:i] + case[hk][i + 1:]}
     for key in ("rw",):
         if case[key] > 0:
             yield {**case, key: case[key] - 1}
